@@ -1,30 +1,48 @@
-(* The exact rune reader seen as a plain text: [at r t] says that what the reader will deliver from now on is the
-   text [t] - the pushed-back runes followed by the CR-folded rest of the source, without a trailing end marker. *)
-From InfluxQL Require Import Base.Prelude Lex.Token Lex.Reader Lex.Scanner Proofs.LexerSafety.
-From InfluxQL Require Import Lex.StreamLex.
+(* The exact rune reader seen as a cursor into one CR-folded text T.  [cur T r k]: the reader stands in front of
+   the k-th rune of T - its ring holds the runes it may still push back, with the positions they were read at, its
+   source is what is left of T behind the runes already taken, and its line/column state is the state after those
+   runes.  [at_ T r t]: what the reader will deliver from now on is the text t. *)
+From InfluxQL Require Import Base.Prelude Lex.Token Lex.Reader Lex.Scanner Proofs.LexerSafety Lex.StreamLex.
 
 Fixpoint strip (x : text) : text := match x with [] => [] | c :: y => ucons c (strip y) end.
 
-Definition sl (r : reader) (k : Z) : Z := fst (get_slot r (Z.rem (r_i r - k + 3) 3)).
-(* the j-th rune behind the read cursor; j = 0 is the rune read last *)
-Definition prev (r : reader) (j : Z) : Z := sl r (r_n r + j).
-Definition pend (r : reader) : text :=
-  if r_n r =? 0 then [] else if r_n r =? 1 then [sl r 0] else if r_n r =? 2 then [sl r 1; sl r 0] else [sl r 2; sl r 1; sl r 0].
+(* the reader's line/column and eof flag after m runes have been taken from the source *)
+Fixpoint pst (T : text) (m : nat) : pos * bool :=
+  match m with
+  | O => (pos0, false)
+  | S m' =>
+      let '(p, e) := pst T m' in
+      let c := nth m' T 0 in
+      (if c =? 10 then mkPos (p_line p + 1) 0 else if negb e then mkPos (p_line p) (p_char p + 1) else p, e || (c =? 0))
+  end.
+(* the m-th rune the source delivers, as the ring records it: end of text reads as 0 *)
+Definition A (T : text) (m : nat) : slot := (nth m T 0, fst (pst T m)).
 
-Definition at_ (r : reader) (t : text) : Prop := rb 3 r /\ t = strip (pend r ++ fold_cr (r_src r)).
+Definition slj (r : reader) (j : Z) : slot := get_slot r (Z.rem (r_i r - j + 3) 3).
+
+Definition cur (T : text) (r : reader) (k : nat) : Prop :=
+  exists m : nat,
+    r_bad r = false /\ 0 <= r_i r <= 2 /\ 0 <= r_n r <= 3 /\ (Z.to_nat (r_n r) <= m)%nat /\ k = (m - Z.to_nat (r_n r))%nat /\
+    fold_cr (r_src r) = skipn m T /\ r_pos r = fst (pst T m) /\ r_eof r = snd (pst T m) /\
+    ((1 <= m)%nat -> slj r 0 = A T (m - 1)) /\ ((2 <= m)%nat -> slj r 1 = A T (m - 2)) /\ ((3 <= m)%nat -> slj r 2 = A T (m - 3)).
+
+(* [atH T r h t]: the reader will deliver t, and the slots in h (most recent first) are the ones it read last *)
+Definition atH (T : text) (r : reader) (h : list slot) (t : text) : Prop :=
+  exists k, cur T r k /\ t = strip (skipn k T) /\ (length h <= k)%nat /\
+            forall j, (j < length h)%nat -> nth j h slot0 = A T (k - 1 - j).
+Definition at_ (T : text) (r : reader) (t : text) : Prop := atH T r [] t.
+(* a slot that is the one in front of which the text t starts *)
+Definition slot_at (T : text) (t : text) (a : slot) : Prop := exists k, t = strip (skipn k T) /\ a = A T k.
 
 Lemma sread_ucons c t : sread (ucons c t) = (c, t).
 Proof. destruct t as [|d t]; cbn; [destruct (Z.eqb_spec c 0) as [->|]; reflexivity|reflexivity]. Qed.
-
 Lemma sread_strip x : sread (strip x) = (hd 0 x, strip (tl x)).
 Proof. destruct x as [|c y]; [reflexivity|]. cbn [strip hd tl]. apply sread_ucons. Qed.
-
 Lemma raw_read_fold s : hd 0 (fold_cr s) = fst (raw_read s) /\ tl (fold_cr s) = fold_cr (snd (raw_read s)).
 Proof.
   destruct s as [|c s']; [split; reflexivity|]. cbn [fold_cr raw_read]. destruct (c =? 13); [|split; reflexivity].
   destruct s' as [|d s'']; [split; reflexivity|]. destruct (d =? 10); split; reflexivity.
 Qed.
-
 Lemma length_ucons c t : (length (ucons c t) <= S (length t))%nat.
 Proof. destruct t; cbn; [destruct (c =? 0); cbn; lia|lia]. Qed.
 Lemma length_strip x : (length (strip x) <= length x)%nat.
@@ -42,78 +60,178 @@ Qed.
 Lemma length_fold_cr s : (length (fold_cr s) <= length s)%nat.
 Proof. apply (length_fold_cr_n (length s)). lia. Qed.
 
-Ltac cases_in r :=
-  destruct r as [src i n p b0 b1 b2 e bad oof mx];
-  unfold at_, rb, prev, sl, pend, unread, set_n, set_bad, curr, curr_index, curr_panics, get_slot in *;
-  cbn [r_src r_i r_n r_pos r_b0 r_b1 r_b2 r_eof r_bad r_oof r_maxn] in *.
+Lemma hd_skipn (T : text) m : hd 0 (skipn m T) = nth m T 0.
+Proof. revert T. induction m as [|m IH]; intros [|c T]; cbn; try reflexivity. apply IH. Qed.
+Lemma tl_skipn (T : text) m : tl (skipn m T) = skipn (S m) T.
+Proof. revert T. induction m as [|m IH]; intros [|c T]; try reflexivity. exact (IH T). Qed.
+Lemma skipn_cons_nth (T : text) k : (k < length T)%nat -> skipn k T = nth k T 0 :: skipn (S k) T.
+Proof. revert T. induction k as [|k IH]; intros [|c T] H; cbn in *; try lia; [reflexivity|]. apply IH. lia. Qed.
+Lemma skipn_all2 (T : text) k : (length T <= k)%nat -> skipn k T = [].
+Proof. apply skipn_all2. Qed.
+Lemma nth_beyond (T : text) k : (length T <= k)%nat -> nth k T 0 = 0.
+Proof. intros H. apply nth_overflow. exact H. Qed.
 
-Lemma fuel_at r t : at_ r t -> (length t + 4 <= read_fuel r)%nat.
+(* pushing the rune before the cursor back in front of the text behind the cursor *)
+Lemma strip_back (T : text) k : strip (skipn k T) = ucons (nth k T 0) (strip (skipn (S k) T)).
 Proof.
-  intros [(Hb & Hi & Hn) ->]. unfold read_fuel. pose proof (length_strip (pend r ++ fold_cr (r_src r))) as H.
-  rewrite app_length in H. pose proof (length_fold_cr (r_src r)).
-  assert (length (pend r) = Z.to_nat (r_n r)) as E.
-  { unfold pend. assert (r_n r = 0 \/ r_n r = 1 \/ r_n r = 2 \/ r_n r = 3) as [->|[->|[->| ->]]] by lia; reflexivity. }
-  lia.
+  destruct (Nat.lt_ge_cases k (length T)) as [H|H].
+  - rewrite (skipn_cons_nth T k H). reflexivity.
+  - rewrite (skipn_all2 T k H), (skipn_all2 T (S k)) by lia. rewrite (nth_beyond T k H). reflexivity.
+Qed.
+
+Lemma cur_rb T r k : cur T r k -> rb 3 r.
+Proof. intros (m & Hb & Hi & Hn & _). unfold rb. repeat split; try assumption; lia. Qed.
+Lemma atH_rb T r h t : atH T r h t -> rb 3 r.
+Proof. intros (k & H & _). exact (cur_rb _ _ _ H). Qed.
+Lemma at_rb T r t : at_ T r t -> rb 3 r.
+Proof. apply atH_rb. Qed.
+Lemma at_n T r t : at_ T r t -> 0 <= r_n r <= 3.
+Proof. intros H. destruct (at_rb _ _ _ H) as (_ & _ & ?). assumption. Qed.
+
+Lemma check_eq r : rb 3 r -> set_bad r (r_bad r || curr_panics r) = r.
+Proof.
+  intros Hr. pose proof (rb_check 3 r Hr ltac:(lia)) as (Hb & _). destruct Hr as (Hb0 & _).
+  destruct r. cbn in *. unfold set_bad. cbn. rewrite Hb0 in *. cbn in Hb. rewrite Hb. reflexivity.
+Qed.
+
+Lemma pst_S T m : pst T (S m) =
+  (if nth m T 0 =? 10 then mkPos (p_line (fst (pst T m)) + 1) 0
+   else if negb (snd (pst T m)) then mkPos (p_line (fst (pst T m))) (p_char (fst (pst T m)) + 1) else fst (pst T m),
+   snd (pst T m) || (nth m T 0 =? 0)).
+Proof. cbn [pst]. destruct (pst T m) as [p e]. reflexivity. Qed.
+
+Lemma cur_read T r k : cur T r k ->
+  exists r', read r = (A T k, r') /\ cur T r' (S k) /\ r_n r' = Z.max (r_n r - 1) 0.
+Proof.
+  intros (m & Hb & Hi & Hn & Hnm & Hk & Hs & Hp & He & S0 & S1 & S2).
+  destruct (Z.ltb_spec 0 (r_n r)) as [Hpos|Hz].
+  - (* replay *)
+    destruct r as [src i n p b0 b1 b2 e bad oof mx].
+    cbn [r_src r_i r_n r_pos r_b0 r_b1 r_b2 r_eof r_bad r_oof r_maxn] in *. subst bad.
+    unfold slj, get_slot in S0, S1, S2. cbn [r_i r_b0 r_b1 r_b2] in S0, S1, S2.
+    assert (n = 1 \/ n = 2 \/ n = 3) as [->|[->| ->]] by lia;
+      (assert (i = 0 \/ i = 1 \/ i = 2) as [->|[->| ->]] by lia);
+      change (Z.to_nat 1) with 1%nat in *; change (Z.to_nat 2) with 2%nat in *; change (Z.to_nat 3) with 3%nat in *;
+      cbn in S0, S1, S2; subst k;
+      (eexists; split; [unfold read, set_maxn, set_n, curr, curr_index, get_slot, set_bad, curr_panics; cbn; f_equal;
+                        first [rewrite <- S0 by lia; reflexivity | rewrite <- S1 by lia; reflexivity | rewrite <- S2 by lia; reflexivity]
+                       |]);
+      (split; [|reflexivity]); exists m; cbn [r_src r_i r_n r_pos r_b0 r_b1 r_b2 r_eof r_bad r_oof r_maxn];
+      unfold slj, get_slot; cbn [r_i r_b0 r_b1 r_b2];
+      change (Z.to_nat 0) with 0%nat; change (Z.to_nat 1) with 1%nat; change (Z.to_nat 2) with 2%nat;
+      (repeat split; try assumption; try lia).
+  - (* a fresh rune *)
+    assert (En : r_n r = 0) by lia. rewrite En in *. cbn in Hnm, Hk. rewrite Nat.sub_0_r in Hk. subst k.
+    pose proof (raw_read_fold (r_src r)) as [Eh Et]. rewrite Hs in Eh, Et. rewrite hd_skipn in Eh. rewrite tl_skipn in Et.
+    destruct r as [src i n p b0 b1 b2 e bad oof mx].
+    cbn [r_src r_i r_n r_pos r_b0 r_b1 r_b2 r_eof r_bad r_oof r_maxn] in *. subst bad n p e.
+    unfold slj, get_slot in S0, S1, S2. cbn [r_i r_b0 r_b1 r_b2] in S0, S1, S2.
+    unfold read, set_maxn. cbn [r_src r_i r_n r_pos r_b0 r_b1 r_b2 r_eof r_bad r_oof r_maxn Z.ltb Z.compare].
+    destruct (raw_read src) as [ch src']. cbn [fst snd] in *. subst ch.
+    eexists. split; [reflexivity|]. split; [|reflexivity]. exists (S m).
+    cbn [r_src r_i r_n r_pos r_b0 r_b1 r_b2 r_eof r_bad r_oof r_maxn]. rewrite pst_S. cbn [fst snd].
+    unfold slj, get_slot. cbn [r_i r_b0 r_b1 r_b2].
+    assert (i = 0 \/ i = 1 \/ i = 2) as [->|[->| ->]] by lia; cbn in S0, S1, S2; cbn;
+      (repeat split; try reflexivity; try lia; try (symmetry; exact Et);
+       try (intros Hm; replace (m - 0)%nat with m by lia; reflexivity);
+       try (intros Hm; first [exact (S0 ltac:(lia)) | exact (S1 ltac:(lia)) | exact (S2 ltac:(lia))])).
+Qed.
+
+Lemma cur_unread T r k : cur T r (S k) -> r_n r <= 2 -> cur T (unread r) k.
+Proof.
+  intros (m & Hb & Hi & Hn & Hnm & Hk & Hs & Hp & He & S0 & S1 & S2) Hn2. exists m.
+  unfold unread, set_n, slj in *. cbn [r_src r_i r_n r_pos r_b0 r_b1 r_b2 r_eof r_bad r_oof r_maxn get_slot].
+  replace (Z.to_nat (r_n r + 1)) with (S (Z.to_nat (r_n r))) by lia.
+  repeat split; try assumption; try lia.
+Qed.
+
+(* the slot the reader calls current is the one before the cursor *)
+Lemma cur_curr T r k : cur T r (S k) -> r_n r <= 2 -> curr r = A T k.
+Proof.
+  intros (m & Hb & Hi & Hn & Hnm & Hk & Hs & Hp & He & S0 & S1 & S2) Hn2.
+  unfold curr, curr_index, slj in *.
+  assert (r_n r = 0 \/ r_n r = 1 \/ r_n r = 2) as [E|[E|E]] by lia; rewrite E in *;
+    change (Z.to_nat 0) with 0%nat in *; change (Z.to_nat 1) with 1%nat in *; change (Z.to_nat 2) with 2%nat in *.
+  - rewrite S0 by lia. f_equal. lia.
+  - rewrite S1 by lia. f_equal. lia.
+  - rewrite S2 by lia. f_equal. lia.
+Qed.
+
+Lemma cur_check T r k : cur T r k -> cur T (set_bad r (r_bad r || curr_panics r)) k.
+Proof. intros H. rewrite check_eq; [exact H|exact (cur_rb _ _ _ H)]. Qed.
+
+Lemma cur_new s : cur (fold_cr s) (new_reader s) 0.
+Proof.
+  exists 0%nat. unfold new_reader, slj. cbn. repeat split; try reflexivity; try lia.
+Qed.
+
+(* the interface the refinement proofs use *)
+Section I.
+Variable T : text.
+
+Lemma atH_weaken r h t : atH T r h t -> at_ T r t.
+Proof. intros (k & H & E & _). exists k. split; [exact H|]. split; [exact E|]. split; [cbn; lia|]. cbn. intros j Hj. lia. Qed.
+
+Lemma fuel_at r t : at_ T r t -> (length t + 4 <= read_fuel r)%nat.
+Proof.
+  intros (k & (m & Hb & Hi & Hn & Hnm & Hk & Hs & _) & -> & _). unfold read_fuel.
+  pose proof (length_strip (skipn k T)) as H1. pose proof (length_fold_cr (r_src r)) as H2. rewrite Hs in H2.
+  rewrite skipn_length in *. lia.
 Qed.
 Lemma fuel_unread r : 0 <= r_n r -> read_fuel (unread r) = S (read_fuel r).
 Proof. intros H. unfold read_fuel, unread, set_n. cbn. lia. Qed.
 
-Lemma at_rb r t : at_ r t -> rb 3 r.
-Proof. intros [H _]. exact H. Qed.
-
-Lemma curr_prev r : fst (curr r) = prev r 0.
-Proof. unfold curr, prev, sl, curr_index. rewrite Z.add_0_r. reflexivity. Qed.
-
-Lemma check_at r t : at_ r t -> at_ (set_bad r (r_bad r || curr_panics r)) t.
-Proof.
-  intros [Hr ->]. split; [apply rb_check; [exact Hr|lia]|]. reflexivity.
-Qed.
-Lemma check_prev r j : prev (set_bad r (r_bad r || curr_panics r)) j = prev r j.
-Proof. reflexivity. Qed.
+Lemma check_atH r h t : atH T r h t -> atH T (set_bad r (r_bad r || curr_panics r)) h t.
+Proof. intros H. rewrite check_eq; [exact H|exact (atH_rb _ _ _ _ H)]. Qed.
+Lemma check_at r t : at_ T r t -> at_ T (set_bad r (r_bad r || curr_panics r)) t.
+Proof. apply check_atH. Qed.
 Lemma check_n r : r_n (set_bad r (r_bad r || curr_panics r)) = r_n r.
 Proof. reflexivity. Qed.
-
-Lemma unread_at r t : at_ r t -> r_n r <= 2 -> at_ (unread r) (ucons (prev r 0) t).
-Proof.
-  intros [Hr ->] Hn. split.
-  - destruct Hr as (Hb & Hi & Hn'). unfold rb, unread, set_n. cbn. repeat split; try assumption; lia.
-  - destruct Hr as (Hb & Hi & Hn'). cases_in r.
-    assert (n = 0 \/ n = 1 \/ n = 2) as [->|[->| ->]] by lia; cbn; rewrite ?Z.add_0_r; reflexivity.
-Qed.
-
-Lemma read_at r t c t1 : at_ r t -> sread t = (c, t1) ->
-  exists p r', read r = ((c, p), r') /\ at_ r' t1 /\ r_n r' = Z.max (r_n r - 1) 0 /\ prev r' 0 = c /\ prev r' 1 = prev r 0.
-Proof.
-  intros [Hr ->] E. rewrite sread_strip in E. injection E as <- <-.
-  destruct (Z.ltb_spec 0 (r_n r)) as [Hpos|Hz].
-  - destruct Hr as (Hb & Hi & Hn). destruct r as [src i n p [c0 p0] [c1 p1] [c2 p2] e bad oof mx].
-    cbn [r_src r_i r_n r_pos r_b0 r_b1 r_b2 r_eof r_bad r_oof r_maxn] in *. subst bad.
-    assert (n = 1 \/ n = 2 \/ n = 3) as [->|[->| ->]] by lia;
-      (assert (i = 0 \/ i = 1 \/ i = 2) as [->|[->| ->]] by lia);
-      (eexists _, _; split; [reflexivity|]); (split; [split; [unfold rb; cbn; lia|reflexivity]|]); cbn; repeat split; reflexivity.
-  - pose proof (rb_read 3 r Hr ltac:(lia)) as Hr'.
-    destruct Hr as (Hb & Hi & Hn). unfold read in *.
-    cbn [set_maxn r_n r_i r_bad r_src r_pos r_b0 r_b1 r_b2 r_eof r_oof r_maxn] in *.
-    destruct (Z.ltb_spec 0 (r_n r)) as [Hpos|_]; [lia|].
-    assert (r_n r = 0) as En by lia. pose proof (raw_read_fold (r_src r)) as [Eh Et].
-    destruct (raw_read (r_src r)) as [ch src'] eqn:Er. cbn [fst snd] in *.
-    eexists _, _. split; [f_equal; f_equal|].
-    + unfold pend. rewrite En. cbn. symmetry. exact Eh.
-    + split; [split; [eapply rb_mono; [exact Hr'|lia]|]|].
-      * unfold pend. cbn [r_n r_src]. rewrite En. cbn [Z.eqb app]. rewrite Et. reflexivity.
-      * cases_in r. subst n. assert (i = 0 \/ i = 1 \/ i = 2) as [->|[->| ->]] by lia; cbn; rewrite ?Eh; repeat split; reflexivity.
-Qed.
-
-(* reading, in the shape the refinement proofs use it *)
-Lemma read_at' r t : at_ r t ->
-  exists p r', read r = ((fst (sread t), p), r') /\ at_ r' (snd (sread t)) /\ r_n r' = Z.max (r_n r - 1) 0 /\
-               prev r' 0 = fst (sread t) /\ prev r' 1 = prev r 0.
-Proof. intros H. apply (read_at r t); [exact H|]. destruct (sread t); reflexivity. Qed.
-
 Lemma unread_n r : r_n (unread r) = r_n r + 1.
 Proof. reflexivity. Qed.
-Lemma unread_prev r j : prev (unread r) j = prev r (j + 1).
-Proof. unfold prev, unread, set_n, sl, get_slot. cbn. replace (r_n r + 1 + j) with (r_n r + (j + 1)) by lia. reflexivity. Qed.
 
-Lemma at_new s : at_ (new_reader s) (strip (fold_cr s)).
-Proof. split; [unfold rb, new_reader; cbn; lia|reflexivity]. Qed.
+(* a read delivers the head of the text, with the position recorded for it, and remembers it *)
+Lemma read_atH r h t : atH T r h t ->
+  exists p r', read r = ((fst (sread t), p), r') /\ atH T r' ((fst (sread t), p) :: h) (snd (sread t)) /\
+               r_n r' = Z.max (r_n r - 1) 0 /\ slot_at T t (fst (sread t), p).
+Proof.
+  intros (k & H & -> & Hl & Hh). destruct (cur_read T r k H) as (r' & E & H' & Hn).
+  rewrite sread_strip, hd_skipn, tl_skipn. cbn [fst snd].
+  exists (snd (A T k)), r'. split; [rewrite E; reflexivity|]. split; [|split; [exact Hn|exists k; split; reflexivity]].
+  exists (S k). split; [exact H'|]. split; [reflexivity|]. split; [cbn [length]; lia|].
+  intros j Hj. destruct j as [|j]; cbn [nth length] in *.
+  - replace (S k - 1 - 0)%nat with k by lia. reflexivity.
+  - rewrite (Hh j ltac:(lia)). f_equal. lia.
+Qed.
+
+(* pushing back the slot read last *)
+Lemma unread_atH r a h t : atH T r (a :: h) t -> r_n r <= 2 -> atH T (unread r) h (ucons (fst a) t).
+Proof.
+  intros (k & H & -> & Hl & Hh) Hn. cbn [length] in Hl. destruct k as [|k]; [lia|].
+  exists k. split; [apply cur_unread; assumption|]. split.
+  - rewrite (strip_back T k). f_equal. pose proof (Hh 0%nat ltac:(cbn; lia)) as H0. cbn [nth] in H0.
+    replace (S k - 1 - 0)%nat with k in H0 by lia. rewrite H0. reflexivity.
+  - split; [lia|]. intros j Hj. pose proof (Hh (S j) ltac:(cbn; lia)) as Hj'. cbn [nth] in Hj'. rewrite Hj'. f_equal. lia.
+Qed.
+
+Lemma curr_atH r a h t : atH T r (a :: h) t -> r_n r <= 2 -> curr r = a.
+Proof.
+  intros (k & H & _ & Hl & Hh) Hn. cbn [length] in Hl. destruct k as [|k]; [lia|].
+  rewrite (cur_curr T r k H Hn). pose proof (Hh 0%nat ltac:(cbn; lia)) as H0. cbn [nth] in H0. rewrite H0. f_equal. lia.
+Qed.
+
+(* reading again after pushing back returns the same slot *)
+Lemma reread_atH r a h t : atH T r (a :: h) t -> r_n r <= 2 ->
+  exists r', read (unread r) = (a, r') /\ atH T r' (a :: h) t /\ r_n r' = r_n r.
+Proof.
+  intros (k & H & -> & Hl & Hh) Hn. cbn [length] in Hl. destruct k as [|k]; [lia|].
+  pose proof (cur_unread T r k H Hn) as Hu. destruct (cur_read T _ k Hu) as (r' & E & H' & Hn').
+  exists r'. pose proof (Hh 0%nat ltac:(cbn; lia)) as H0. cbn [nth] in H0. replace (S k - 1 - 0)%nat with k in H0 by lia.
+  split; [rewrite E, H0; reflexivity|]. split.
+  - exists (S k). split; [exact H'|]. split; [reflexivity|]. split; [cbn; lia|exact Hh].
+  - rewrite Hn', unread_n. destruct H as (m & _ & _ & Hn0 & _). lia.
+Qed.
+
+Lemma at_new s : at_ (fold_cr s) (new_reader s) (strip (fold_cr s)).
+Proof. exists 0%nat. split; [apply cur_new|]. split; [reflexivity|]. split; [cbn; lia|]. cbn. intros j Hj. lia. Qed.
+End I.
